@@ -90,6 +90,10 @@ package group
 //@   requires unlocked: !held(g.mu)
 //@   modifies held(g.mu)
 //@   ensures unlocked: !held(g.mu)
+//@   -- (invariant of the table of clients, assumed: the clients registered in a group are real and belong to it - AddClient registers c
+//@   --  only in the group it joins - or have already been detached)
+//@   trusts members-belong: forall i int :: 0 <= i && i < len(result) ==> result[i] != nil
+//@        && (isnil(icall("group.Client.Group", result[i])) || icall("group.Client.Group", result[i]) == g)
 //@
 //@ func (*Group).getClientUnlocked
 //@   props C13 C12
@@ -263,6 +267,7 @@ package group
 //@   requires unlocked: !held(groups.mu)
 //@   modifies held(groups.mu)
 //@   ensures unlocked: !held(groups.mu)
+//@   ensures registered: same(result, lookup(name))
 //@
 //@ func deleteUnlocked
 //@   props C13
@@ -292,8 +297,8 @@ package group
 //@   props C13
 //@   requires nonnil: g != nil
 //@   requires unlocked: !held(g.mu)
-//@   -- assumed of the callbacks: they do not touch the group's guarded state or its mutex (violated by Kick of WHIP and disk
-//@   -- clients from kickall, see DESIGN.md section 8, h')
+//@   -- assumed of the callbacks: they do not touch the group's guarded state or its mutex (kickall used to call Kick from here,
+//@   -- and the Kick of WHIP and disk clients re-enters the group: repaired, see the contract of group.Client.Kick)
 //@   dyncall modifies nothing
 //@   modifies held(g.mu)
 //@   invariant loop 1 locked: held(g.mu)
@@ -419,9 +424,14 @@ package group
 //@   ensures one: isnil(result0) == (result1 != nil)
 //@
 //@ func GetDescription
-//@   trusted
-//@   why description.go: the cached description of a running group if its file is unchanged, else a newly parsed one (not yet verified here)
-//@   modifies nothing
+//@   props C13 C17 C12
+//@   requires unlocked: !held(groups.mu)
+//@   -- context assumption (lock order groups.mu -> Group.mu): callers hold no group mutex
+//@   assume group-unlocked: forall n string :: has(groups.groups, n) ==> groups.groups[n] == nil || !held(groups.groups[n].mu)
+//@   -- invariant of the table: a registered group has a description
+//@   assume table: forall n string :: has(groups.groups, n) && groups.groups[n] != nil ==> groups.groups[n].description != nil
+//@   modifies held(groups.mu), held(lookup(name).mu)
+//@   ensures unlocked: !held(groups.mu)
 //@   ensures one: isnil(result0) == (result1 != nil)
 //@
 //@ func rewriteDescriptionFile
@@ -465,14 +475,20 @@ package group
 //@
 //@ func GetSanitisedDescription
 //@   props C17 C12
-//@   modifies nothing
+//@   requires unlocked: !held(groups.mu)
+//@   -- (GetDescription takes groups.mu and the group's mutex for the duration of a read)
+//@   modifies held(groups.mu), held(lookup(name).mu)
+//@   ensures unlocked: !held(groups.mu)
 //@   -- C17: what is disclosed is a private copy without users, wildcard user and keys
 //@   ensures no-secrets: result2 == nil ==> !isnil(result0) && fresh(result0) && isnil(result0.Users) && result0.WildcardUser == nil && isnil(result0.AuthKeys)
 //@   ensures error: result2 != nil ==> isnil(result0) && result1 == ""
 //@
 //@ func GetSanitisedUser
 //@   props C17 C12
-//@   modifies nothing
+//@   requires unlocked: !held(groups.mu)
+//@   -- (GetDescription takes groups.mu and the group's mutex for the duration of a read)
+//@   modifies held(groups.mu), held(lookup(group).mu)
+//@   ensures unlocked: !held(groups.mu)
 //@   -- C17: no password material leaves this function
 //@   ensures no-password: result0.Password.Type == "" && result0.Password.Hash == "" && result0.Password.Key == nil && result0.Password.Salt == "" && result0.Password.Iterations == 0
 //@
@@ -600,8 +616,11 @@ package group
 //@
 //@ func GetUsers
 //@   props C17 C12
-//@   modifies nothing
-//@   invariant loop 1 own: fresh(users)
+//@   requires unlocked: !held(groups.mu)
+//@   -- (GetDescription takes groups.mu and the group's mutex for the duration of a read)
+//@   modifies held(groups.mu), held(lookup(group).mu)
+//@   ensures unlocked: !held(groups.mu)
+//@   invariant loop 1 own: fresh(users) && !held(groups.mu)
 //@
 //@ -- ------------------------------------------------------------------ password login (C08)
 //@ global login-errors-set: ErrBadPassword != nil && ErrNoSuchUsername != nil && ErrUsernameRequired != nil && ErrDuplicateUsername != nil
@@ -752,3 +771,22 @@ package group
 //@   proves token-name: creds.Token != "" && result2 == nil && first(callresult("Check", 1)) != "" ==> result0 == first(callresult("Check", 1))
 //@   proves token-no-shadow: creds.Token != "" && result2 == nil && first(callresult("Check", 1)) == "" && creds.Username != nil ==> result0 == *creds.Username && !has(desc.Users, *creds.Username)
 //@   ensures valid-name: result2 == nil ==> validUsername(result0)
+//@
+//@ -- ------------------------------------------------------------------ kicking and shutdown (C13: no self-deadlock)
+//@ iface group.Client.Kick
+//@   why group.Client: asks the client to leave.  Implementations may call back into the group (WhipClient.Close calls Group.GetClients and
+//@       group.DelClient, diskwriter.Client.Kick calls group.DelClient, both lock the group's mutex): callers must not hold that mutex
+//@       (checked where Kick is called from code under contract: kickall)
+//@   modifies *
+//@
+//@ func kickall
+//@   props C13 C12
+//@   requires nonnil: g != nil
+//@   requires unlocked: !held(g.mu)
+//@   modifies *
+//@   invariant loop 1 free: !held(g.mu)
+//@   -- C13: every Kick is issued with the group's mutex released (kickall used to kick from inside Group.Range, i.e. with the
+//@   -- mutex held: self-deadlock of Shutdown with a recorder or a WHIP publisher in the group; repaired)
+//@   assert at call Kick group-unlocked: !held(g.mu)
+//@   assert at call Range never-under-range: false
+//@   ensures unlocked: !held(g.mu)
